@@ -6,12 +6,18 @@ mod c07;
 mod c08;
 mod c01;
 mod c17;
+mod alloc;
+mod c04;
+mod c15;
 mod enc;
 mod out;
 mod redisx;
 mod rng;
 
 use std::path::PathBuf;
+
+#[global_allocator]
+static GLOBAL: alloc::Counting = alloc::Counting;
 
 pub struct Args {
     pub seed: u64,
@@ -26,6 +32,10 @@ fn main() {
     if argv.len() < 2 {
         eprintln!("usage: rvharness <Cxx> [--seed S] [--n N] [--out DIR] [--tier quick|thorough] [--replay FILE]");
         std::process::exit(2);
+    }
+    if argv[1] == "--c15-child" {
+        c15::child(&argv[2..]);
+        return;
     }
     let prop = argv[1].to_uppercase();
     let mut a = Args {
@@ -58,6 +68,8 @@ fn main() {
         "C08" => c08::run(&a),
         "C01" => c01::run(&a),
         "C17" => c17::run(&a),
+        "C15" => c15::run(&a),
+        "C04" => c04::run(&a),
         _ => {
             eprintln!("no harness for {}", prop);
             std::process::exit(2);
